@@ -10,6 +10,32 @@ claims = json.load(open(os.path.join(here, "claims.json")))
 
 BASELINE = json.load(open("/root/.vp/BASELINE.json"))["cmd"]
 
+def rules_by_prop():
+    out = subprocess.run([os.path.join(root, "bin", "bbcheck"), "-list"], capture_output=True, text=True).stdout
+    m = {}
+    for line in out.splitlines():
+        parts = line.split(None, 4)
+        if len(parts) < 5:
+            continue
+        rid, props, _floor, _must, text = parts
+        for pid in props.split(","):
+            m.setdefault(pid, []).append((rid, text))
+    return m
+
+RULES = rules_by_prop()
+
+def level_text(pid):
+    rs = RULES.get(pid, [])
+    parts = []
+    for rid, text in rs:
+        t = text.strip()
+        if len(t) > 260:
+            t = t[:257].rsplit(" ", 1)[0] + " …"
+        parts.append(f"{rid}: {t}")
+    return ("Level 'other' (static analysis of the current source, nothing executed): decides, on every control-flow path / call site, "
+            "these structural necessary conditions of the property – " + " || ".join(parts) +
+            ". It does not decide the behavioural statement itself; see level_note for what is left out.")
+
 checks = []
 na = []
 for pid in sorted(claims):
@@ -26,7 +52,7 @@ for pid in sorted(claims):
         "engine": "bbcheck",
         "level_claimed": {
             "category": "other",
-            "text": c["text"],
+            "text": level_text(pid),
             "design_ref": c.get("design_ref", "DESIGN.md section 4, " + pid),
         },
         "level_note": c["note"],
